@@ -927,6 +927,10 @@ def tokenize(content: str, lenient: bool = False) -> tuple[list[Token], list[Any
                     # Convert to int or float, but preserve raw lexeme for fidelity (GH#66)
                     if "." in matched_text or "e" in matched_text.lower():
                         value = float(matched_text)
+                        if value in (float("inf"), float("-inf")):
+                            # 1e999 overflows to inf, which is emitted as "inf" - not a number
+                            # the lexer can read back. Refuse it instead of corrupting it.
+                            raise LexerError(f"Number literal out of range: {matched_text}", line, column, "E005")
                     else:
                         value = int(matched_text)
                     # Store raw lexeme for multi-word value reconstruction
